@@ -102,8 +102,9 @@ def setup_limits(spec):
 
 
 def effective_k(spec, table_override=None):
+	"""the preview limit in force: TOTAL rows shown (head + tail), as set_repr_rows documents"""
 	n = table_override if table_override is not None else (spec.get("limit") if spec.get("limit") is not None else 12)
-	return n // 2
+	return max(int(n), 0)
 
 
 def cell_matches(text, v, token):
@@ -140,11 +141,18 @@ def cell_matches(text, v, token):
 	return text == str(v)
 
 
-def expected_shown(vals, k):
-	"""indices shown: all, or first k + None (ellipsis) + last k"""
+def expected_shown(vals, limit, body=None):
+	"""indices shown: all of them when the data is not longer than the limit, else the first rows + None (the ellipsis) + the last rows, limit rows in all.
+	How an odd limit is cut into head and tail is the library's choice: when the body lines are given, the cut is read off the position of their ellipsis
+	line and accepted if the two parts differ by at most one row and add up to the limit"""
 	n = len(vals)
-	if n > 2 * k:
-		return list(range(k)) + [None] + list(range(n - k, n))
+	if n > limit:
+		head, tail = limit - limit // 2, limit // 2
+		if body is not None and limit % 2:
+			pos = [i for i, ln in enumerate(body) if (ln.strip() == "..." if isinstance(ln, str) else (ln and all(tok == "..." for tok in ln)))]
+			if len(pos) == 1 and len(body) == limit + 1 and abs(pos[0] - (len(body) - pos[0] - 1)) <= 1:
+				head, tail = pos[0], len(body) - pos[0] - 1
+		return list(range(head)) + [None] + list(range(n - tail, n))
 	return list(range(n))
 
 
@@ -157,8 +165,8 @@ def run_vector_truth(chk, spec):
 		o = call(repr, v)
 		k = effective_k(spec)
 		n = len(vals)
-		rel = "over" if n > 2 * k else ("at" if n == 2 * k else "under")
-		chk.judged("vector-truth", ("vtruth", spec.get("kind"), spec.get("limit"), n - 2 * k, bool(spec.get("name")), any(x is None for x in vals)))
+		rel = "over" if n > k else ("at" if n == k else "under")
+		chk.judged("vector-truth", ("vtruth", spec.get("kind"), spec.get("limit"), n - k, bool(spec.get("name")), any(x is None for x in vals)))
 		if not o.ok:
 			chk.fail("repr never raises", f"repr/raises/vector/{spec.get('kind')}/{type(o.exc).__name__}", f"repr(Vector({short(vals, 200)}, name={spec.get('name')!r})) raised {o!r}")
 			return
@@ -191,10 +199,10 @@ def run_vector_truth(chk, spec):
 			if head.strip() not in (nm, repr(nm)):
 				chk.fail("the header shows the stored name", "repr/vector-header-name", f"{spec!r}: header {head!r}")
 				return
-		shown = expected_shown(vals, k)
+		shown = expected_shown(vals, k, body)
 		if len(body) != len(shown):
 			chk.fail("longer data shows first and last rows around an ellipsis, shorter data shows every row", f"repr/vector-body-rows/{rel}-limit",
-				f"{spec!r}: {len(body)} body lines for length {n} with limit {2 * k}: {body!r}")
+				f"{spec!r}: {len(body)} body lines for length {n} with limit {k}: {body!r}")
 			return
 		for line, idx in zip(body, shown):
 			if idx is None:
@@ -202,7 +210,7 @@ def run_vector_truth(chk, spec):
 					chk.fail("an ellipsis separates head and tail", "repr/vector-ellipsis", f"{spec!r}: line {line!r}")
 					return
 			elif not cell_matches(line, vals[idx], tok):
-				where = "head" if idx < k or n <= 2 * k else "tail"
+				where = "head" if idx < k or n <= k else "tail"
 				chk.fail("shown rows are the first and last values", f"repr/vector-cell/{where}", f"{spec!r}: line {line!r} for element {idx} = {vals[idx]!r}")
 				return
 	finally:
@@ -230,8 +238,8 @@ def run_table_truth(chk, spec):
 		k = effective_k(spec, spec.get("override"))
 		nrows = len(cols[0]) if cols else 0
 		ncols = len(cols)
-		rel = "over" if nrows > 2 * k else ("at" if nrows == 2 * k else "under")
-		chk.judged("table-truth", ("ttruth", ncols, nrows - 2 * k, spec.get("limit"), spec.get("override"), spec.get("namepat"), spec.get("dtpat")))
+		rel = "over" if nrows > k else ("at" if nrows == k else "under")
+		chk.judged("table-truth", ("ttruth", ncols, nrows - k, spec.get("limit"), spec.get("override"), spec.get("namepat"), spec.get("dtpat")))
 		if not o.ok:
 			chk.fail("repr never raises", f"repr/raises/table/table/{type(o.exc).__name__}", f"{spec!r} raised {o!r}")
 			return
@@ -262,10 +270,10 @@ def run_table_truth(chk, spec):
 		if any(names):
 			hdr.append(("names", split[pos]))
 			pos += 1
-		if pos < len(split) and split[pos] and all(tok.startswith(".") for tok in split[pos]):
+		if pos < len(split) and split[pos] and all(tok.startswith(".") for tok in split[pos]) and any(tok != "..." for tok in split[pos]):
 			hdr.append(("dots", split[pos]))
 			pos += 1
-		if pos < len(split) and split[pos] and all((tok.startswith("[") and tok.endswith("]")) or tok == "..." for tok in split[pos]):
+		if pos < len(split) and split[pos] and all((tok.startswith("[") and tok.endswith("]")) or tok == "..." for tok in split[pos]) and any(tok.startswith("[") for tok in split[pos]):
 			hdr.append(("types", split[pos]))
 			pos += 1
 		body = split[pos:]
@@ -293,10 +301,10 @@ def run_table_truth(chk, spec):
 				if ft != want:
 					chk.fail("the footer lists the true dtypes with nullability", "repr/table-footer-dtype/list", f"{spec!r}: footer {lines[-1]!r}, dtypes {want!r}")
 					return
-		shown = expected_shown(list(range(nrows)), k)
+		shown = expected_shown(list(range(nrows)), k, body)
 		if len(body) != len(shown):
 			chk.fail("longer data shows first and last rows around an ellipsis, shorter data shows every row", f"repr/table-body-rows/{rel}-limit",
-				f"{spec!r}: {len(body)} body lines for {nrows} rows with limit {2 * k}")
+				f"{spec!r}: {len(body)} body lines for {nrows} rows with limit {k}")
 			return
 		if spec.get("simple"):
 			if any(names):
@@ -321,7 +329,7 @@ def run_table_truth(chk, spec):
 					return
 				for ctext, ci in zip(cells, shown_cols):
 					if not cell_matches(ctext, cols[ci][ridx], toks[ci]):
-						where = "head" if ridx < k or nrows <= 2 * k else "tail"
+						where = "head" if ridx < k or nrows <= k else "tail"
 						chk.fail("shown rows are the first and last rows", f"repr/table-cell/{where}", f"{spec!r}: cell {ctext!r} for row {ridx} column {ci} = {cols[ci][ridx]!r}")
 						return
 	finally:
@@ -510,12 +518,12 @@ def run(chk):
 	for what in ("int-vector", "float-column-holding-int", "table", "row", "nullable"):
 		for limit, digits in ((640, 800), (640, 4000), (1000, 1001), (0, 5000)):
 			chk.case("int_limit", {"what": what, "limit": limit, "digits": digits}, "int-limit")
-	limits = [None, 2, 4, 6, 20] + ([] if chk.quick() else [3, 7, 13])
+	limits = [None, 2, 4, 6, 20, 3, 7, 1, 0] + ([] if chk.quick() else [13, 5])
 	# ---- truthfulness: vectors
 	for limit in limits:
-		k = (limit if limit is not None else 12) // 2
+		k = (limit if limit is not None else 12)
 		for kind in SIMPLE:
-			for n in sorted({0, 1, max(0, 2 * k - 2), max(0, 2 * k - 1), 2 * k, 2 * k + 1, 2 * k + 2, 2 * k + 3, 2 * k + 40}):
+			for n in sorted({0, 1, max(0, k - 2), max(0, k - 1), k, k + 1, k + 2, k + 3, k + 40}):
 				for npat in ("none", "low", "first", "last"):
 					if n == 0 and npat != "none":
 						continue
@@ -529,10 +537,10 @@ def run(chk):
 						"polluter": rng.choice([None, None, "empty-peek", "zero-col-override", "table-override", "vector-long", "failing"])}, "vector-truth")
 	# ---- truthfulness: tables
 	for limit in limits:
-		for override in (None, None, 4, 8):
-			k = (override if override is not None else (limit if limit is not None else 12)) // 2
+		for override in (None, None, 4, 8, 5):
+			k = (override if override is not None else (limit if limit is not None else 12))
 			for ncols in (1, 2, 3, 5, 9, 10, 11, 12):
-				for nrows in sorted({0, 1, max(0, 2 * k - 1), 2 * k, 2 * k + 1, 2 * k + 3}):
+				for nrows in sorted({0, 1, max(0, k - 1), k, k + 1, k + 3}):
 					if chk.quick() and (ncols in (3, 9)) and override is not None:
 						continue
 					dtpat = rng.choice(["same", "same-hidden-odd", "mixed", "nullable-mix"])
